@@ -67,8 +67,12 @@ func (s *wsSession) stop() {
 // read server frames until the barrier NOTICE
 func (s *wsSession) readUntilBarrier(id string) (msgs []mocrelay.ServerMsg, allText bool, err error) {
 	allText = true
+	// no step takes longer than this on a working relay; a read that times out closes the connection, which is
+	// fine: the session is reported as stalled
+	rctx, rcancel := context.WithTimeout(s.ctx, 15*time.Second)
+	defer rcancel()
 	for {
-		typ, data, e := s.conn.Read(s.ctx)
+		typ, data, e := s.conn.Read(rctx)
 		if e != nil {
 			return msgs, allText, e
 		}
@@ -271,6 +275,9 @@ func genWSFrames(r *Rng, n int) []wsFrame {
 	return frames
 }
 
+// number of sessions that stalled in this run: after a few the sweep stops (every further one would wait again)
+var wsStalled int
+
 func execWS(frames []wsFrame, outbound []mocrelay.ServerMsg, pingMs int) {
 	s := startWS(pingMs)
 	defer s.stop()
@@ -285,6 +292,7 @@ func execWS(frames []wsFrame, outbound []mocrelay.ServerMsg, pingMs int) {
 		fwd, replies, err := s.frameStep(f)
 		fj = append(fj, frameJ(f, fwd, replies, err != nil))
 		if err != nil {
+			wsStalled++
 			if os.Getenv("VERIF_DEBUG") != "" {
 				fmt.Fprintf(os.Stderr, "ws session (ping %d ms) broke at frame %d: %v\n", pingMs, len(fj), err)
 			}
@@ -302,7 +310,7 @@ func execWS(frames []wsFrame, outbound []mocrelay.ServerMsg, pingMs int) {
 func init() {
 	props["ws"] = propRunner{
 		gen: func(r *Rng, n int, tier string) {
-			for i := 0; i < n; i++ {
+			for i := 0; i < n && wsStalled < 6; i++ {
 				var outbound []mocrelay.ServerMsg
 				for k := r.Intn(5); k > 0; k-- {
 					m := wfServerMsg(r)
